@@ -83,8 +83,10 @@ func execute(plan *Plan, opts execOpts) *RunResult {
 	defer redact.RegisterRedactErrorFn(nil)
 
 	res := &RunResult{Stats: newStats(), Tasks: len(plan.Tasks)}
+	buildShared(plan)
 	exp, re := reference(plan)
 	res.RefGets = re.refGets
+	res.Viol = append(res.Viol, checkShared("reference (isolated) execution")...)
 	// in-op oracle failures seen by the reference execution
 	for ti := range exp {
 		for i := range exp[ti] {
@@ -175,6 +177,7 @@ func execute(plan *Plan, opts execOpts) *RunResult {
 		}
 	}
 	res.Viol = append(res.Viol, s.viol...)
+	res.Viol = append(res.Viol, checkShared("simulated run")...)
 	var sb strings.Builder
 	for _, t := range s.tasks {
 		res.Viol = append(res.Viol, t.env.viol...)
